@@ -23,6 +23,7 @@ NOT PROVED HERE (correspondence and predicate search only): values containing se
 decoder rebuilds the set through the hash oracle; iteration order ≠ storage order).
 -/
 import CtyModel.Lemmas.JsonValRT
+import CtyModel.Lemmas.JsonValReject
 namespace CtyModel
 namespace C15
 open Ty JsonVal
@@ -116,6 +117,37 @@ theorem mirror (env : JEnv) (top : Bool) (v : Value)
   have h' := h
   simp only [rtHyps, Bool.and_eq_true] at h'
   exact roundtrip_partial env top v v.ty h hs (exact_self v.ty v.v h'.1.1.1.1.1.1.1.1.1.2 h'.1.1.1.1.1.1.1.2)
+
+/-! ## Values JSON cannot represent -/
+
+/-- A value that contains a mark, an unknown or an infinite number ANYWHERE is never
+encoded — whatever its type and the constraint are (sets and capsules included): no
+document is produced for it, so nothing can be mis-encoded. -/
+theorem never_encodes_unknown_marked (env : JEnv) (v : Value) (t : Ty)
+    (h : v.v.containsMarked = true ∨ v.v.whollyKnown = false ∨ hasInf v.v = true) :
+    ∀ j, marshal env v t ≠ .ok j := noOk_marshal env v t h
+
+/-- … and the refusal is an ERROR, not a panic: for a well-formed, capsule-free, set-free
+value conforming to the constraint, `marshal` returns `err`.  (As the code does: the
+checks for marks and unknowns come first in every recursive call, infinity is tested
+before the number is written.) -/
+theorem rejects_unknown_marked (env : JEnv) (v : Value) (t : Ty)
+    (hwt : wf t = true) (hwv : wf v.ty = true) (hcaps : hasCapsule v.ty = false)
+    (hset : setFree v.ty = true) (hconf : «matches» t v.ty = true) (hwf : wfP v.ty v.v = true)
+    (h : v.v.containsMarked = true ∨ v.v.whollyKnown = false ∨ hasInf v.v = true) :
+    ∃ c, marshal env v t = .err c := by
+  rcases okErr_marshal env v t ⟨hwt, hwv, hcaps, hset, hconf, hwf⟩ with ⟨j, hj⟩ | hc
+  · exact absurd hj (noOk_marshal env v t h j)
+  · exact hc
+
+/-- the hypotheses are satisfiable: an unknown deep inside a marked list, under a dynamic
+position of the constraint -/
+example :
+    let v : Value := ⟨.tuple [.list .string, .number], .seq [.marked ["m"] (.seq [.s "a", .unk .unref]), .n (.inf true)]⟩
+    let t : Ty := .tuple [.dyn, .number]
+    wf t = true ∧ wf v.ty = true ∧ hasCapsule v.ty = false ∧ setFree v.ty = true ∧
+    «matches» t v.ty = true ∧ wfP v.ty v.v = true ∧ v.v.containsMarked = true ∧
+    v.v.whollyKnown = false ∧ hasInf v.v = true := by decide
 
 /-! ## Non-vacuity -/
 
